@@ -3,7 +3,8 @@ histories, checking each against the real code and the model (the same checker t
 
 All C07 findings are repaired in the library by now: proj-id-alias, proj-op-alias,
 result-id-alias, proj-arg-mutated (5ac4c3c), update-value-alias (1c3a0e6), agg-literal-alias
-(aab0261), cursor-cache-alias (b973460).  This script turns the entries listed in FIXED into
+(aab0261), cursor-cache-alias (b973460), cursor-projection-by-reference (b829c96; it had been
+listed as an assumption of the harness, not as a finding).  This script turns the entries listed in FIXED into
 `fixed` records (keeping / adding the witness history) after checking that the witness runs clean
 through `props.c07.run_one` with nothing listed as known and that the named consequence no longer
 shows; run it with the repaired library on PYTHONPATH."""
@@ -16,6 +17,15 @@ import wire  # noqa: E402
 import props.c07 as c07  # noqa: E402
 
 FIXED = [
+    ('cursor-projection-by-reference', 'b829c96',
+     'a Cursor keeps the projection dict / list it was given by reference and reads it when it '
+     'computes its results (first iteration, clone(), sort()): editing the projection after find() '
+     'returned changes what the cursor and its clones return (an argument aliased into the '
+     'cursor; the filter was copied already)',
+     [['insert_one', {'_id': 1, 'a': 1, 'b': 2}],
+      ['find_rewind', {}, {'a': 1}, [['rewind']]],
+      ['cursor_again', 0, ['clone']]],
+     'cursor-projection-by-reference'),
     ('cursor-cache-alias', 'b973460',
      'a Cursor caches its result list and hands out the cached objects (collection.py:1909-1942): '
      'after editing a document obtained from a cursor, rewinding / indexing the same cursor '
